@@ -68,7 +68,7 @@ CLAIMED = {
    'Cut family: 0-4 pending interactions in both roles, then the TCP link is cut at an arbitrary byte offset (mid-frame and mid-fragment included), by orderly EOF or by a connection reset, or an endpoint calls close(); several keep-alive periods of virtual time pass. Clauses: every pending requester failed, every responder-side producer cancelled, on_close exactly once per connection, no frame and no keep-alive after the close notification.',
    CONN_NOTE, 'DESIGN 6/C11', 'conn'),
  'C12': ('model_checking',
-   'TLC-checked tables Transport.tla (message transports: message sequences x endings, every row replayed on every transport class) and Dispatch.tla (stream state x frame kind x stream id: containment, duplicate rejection) with every row replayed on both real endpoints; TLC trace validation of recorded executions of the real endpoints (hostile families) against RSocket.tla (+ design-level TLC model checking of the same monitors)',
+   'TLC-checked tables Transport.tla (message transports: message sequences x endings, every row replayed on every transport class), Tagging.tla (the routing tag list as a function of arbitrary bytes: the parse makes progress; every row replayed on the real classes under a timer) and Dispatch.tla (stream state x frame kind x stream id: containment, duplicate rejection) with every row replayed on both real endpoints; TLC trace validation of recorded executions of the real endpoints (hostile families) against RSocket.tla (+ design-level TLC model checking of the same monitors)',
    'Hostile family: twenty classes of junk frames built by an independent encoder are injected towards either endpoint, and interactions run whose application code raises at every entry point (handler methods, publisher subscribe/request/cancel, subscriber callbacks, failing futures, raising generators); a witness stream must still complete with all its payloads, a probe request must be served, both tasks stay alive, the connection is not closed, every run terminates under a watchdog.',
    CONN_NOTE, 'DESIGN 6/C12', 'conn'),
  'C14': ('model_checking',
@@ -97,7 +97,7 @@ CLAIMED = {
          'Domain rule: metadata flag set iff metadata non-empty. Back-end disagreement on malformed input is recorded as drift only.',
          'DESIGN 6/C02', 'codec'),
  'C18': ('exploration',
-         'independent TLA+ transcription of the extension layouts (CompositeMetadata.tla), enumerated by TLC, replayed on the real classes',
+         'independent TLA+ transcription of the extension layouts (CompositeMetadata.tla; Tagging.tla for the tag list as a function of arbitrary bytes), enumerated by TLC, replayed on the real classes',
          'CompositeMetadata.tla defines the layout of composite entries, routing tags, simple/bearer authentication, data MIME type(s) and MIME headers; TLC enumerates entry lists (all single variants, pairs, triples), '
          'checks length identities and limits and prints value + encoding; each list (plus every well-known id, plus random lists of 3-8 specification entries, names passed as bytes and as enum members) is replayed: '
          'encode equals layout, decode yields the same value, re-encode identical, id/name tables one-to-one, over-long names and tags rejected at encode time.',
